@@ -1,6 +1,8 @@
 From GV Require Import Common.Outcome C12.HeaderModel C12.Spec C12.Proofs.
 From GV Require C10.YpSpec C10.YpTotal C11.Spec C11.Proofs C11.TotalProofs.
 
+From GV Require Import Common.Outcome.
+From GV Require C10.YpSpansSpec C10.YpSpans C11.ErrSpansSpec C11.ErrSpans.
 Theorem C12_header_total : header_total_stmt.
 Proof. exact header_total. Qed.
 Print Assumptions C12_header_total.
@@ -63,3 +65,40 @@ Print Assumptions C12_lex_parse_total.
 Theorem C12_lex_errs_nonempty : C11.Spec.lex_errs_nonempty_stmt.
 Proof. exact C11.Proofs.lex_errs_nonempty. Qed.
 Print Assumptions C12_lex_errs_nonempty.
+
+(* span well-formedness of the yacc and lex parsers' errors, warnings and AST spans *)
+(* C12 — well-formed spans of the yacc and lex specification parsers (to be
+   merged into Properties/C12.v): every span carried by an error, a warning or
+   the AST satisfies start <= end <= |text| on character boundaries. *)
+
+Theorem C12_yacc_error_spans_wellformed : C10.YpSpansSpec.yacc_error_spans_wellformed_stmt.
+Proof. exact C10.YpSpans.yacc_error_spans_wellformed. Qed.
+Print Assumptions C12_yacc_error_spans_wellformed.
+
+Theorem C12_yacc_action_span_boundary_fixed : C10.YpSpansSpec.yacc_action_span_boundary_fixed_stmt.
+Proof. exact C10.YpSpans.yacc_action_span_boundary_fixed. Qed.
+Print Assumptions C12_yacc_action_span_boundary_fixed.
+
+Theorem C12_yacc_action_span_boundary_refuted : C10.YpSpansSpec.yacc_action_span_boundary_refuted_stmt.
+Proof. exact C10.YpSpans.yacc_action_span_boundary_refuted. Qed.
+Print Assumptions C12_yacc_action_span_boundary_refuted.
+
+Theorem C12_yacc_spans_example : C10.YpSpansSpec.yacc_spans_example_stmt.
+Proof. exact C10.YpSpans.yacc_spans_example. Qed.
+Print Assumptions C12_yacc_spans_example.
+
+Theorem C12_lex_error_spans_wellformed : C11.ErrSpansSpec.lex_error_spans_wellformed_stmt.
+Proof. exact C11.ErrSpans.lex_error_spans_wellformed. Qed.
+Print Assumptions C12_lex_error_spans_wellformed.
+
+Theorem C12_lex_error_spans_refuted : C11.ErrSpansSpec.lex_error_spans_refuted_stmt.
+Proof. exact C11.ErrSpans.lex_error_spans_refuted. Qed.
+Print Assumptions C12_lex_error_spans_refuted.
+
+Theorem C12_lex_error_spans_target_refuted : C11.ErrSpansSpec.lex_error_spans_target_refuted_stmt.
+Proof. exact C11.ErrSpans.lex_error_spans_target_refuted. Qed.
+Print Assumptions C12_lex_error_spans_target_refuted.
+
+Theorem C12_lex_error_spans_example : C11.ErrSpansSpec.lex_error_spans_example_stmt.
+Proof. exact C11.ErrSpans.lex_error_spans_example. Qed.
+Print Assumptions C12_lex_error_spans_example.
